@@ -447,6 +447,11 @@ type Axiom struct {
 	Pkg  string
 }
 
+type ExemptRule struct {
+	Pattern string
+	Reason  string
+}
+
 type GhostField struct {
 	Type, Name, Sort string
 }
@@ -471,12 +476,13 @@ type ContractFile struct {
 	EffectFree []string
 	TypeInvs   []*TypeInv
 	Relayed    []string
+	Exempt     []ExemptRule
 	Imports    map[string]string // alias -> import path for type resolution in specs
 }
 
 var clauseKeywords = map[string]bool{"requires": true, "ensures": true, "modifies": true, "loop": true, "prop": true, "nopanic": true,
 	"trusted": true, "covers": true, "func": true, "extern": true, "pure": true, "rec": true, "uninterp": true, "axiom": true, "lemma": true,
-	"ghost": true, "effectfree": true, "type-invariant": true, "relayed": true, "import": true, "inline": true, "assert": true}
+	"ghost": true, "effectfree": true, "type-invariant": true, "relayed": true, "exempt": true, "import": true, "inline": true, "assert": true}
 
 // ParseContractFile reads //@ lines from a file.
 func ParseContractFile(path, pkg string) (*ContractFile, error) {
@@ -681,6 +687,14 @@ func ParseContractText(text, path, pkg string) (*ContractFile, error) {
 			cur = nil
 		case "relayed":
 			cf.Relayed = append(cf.Relayed, fs[1:]...)
+			cur = nil
+		case "exempt":
+			// exempt <obligation name> : reason
+			k := strings.Index(rest, " : ")
+			if k < 0 {
+				return nil, fail(l.n, "exempt <obligation> : <reason>")
+			}
+			cf.Exempt = append(cf.Exempt, ExemptRule{Pattern: strings.TrimSpace(rest[:k]), Reason: strings.TrimSpace(rest[k+3:])})
 			cur = nil
 		case "type-invariant":
 			// type-invariant[C16] T: expr
